@@ -129,6 +129,7 @@ func checkC09(p *Program, r *Report) {
 	c09NonBlocking(p, r)
 	c09LastFrame(p, r)
 	c09EnqueueCapacity(p, r)
+	c10DuplicateRefused(p, r)
 }
 
 func clientFuncs(p *Program) []*ssa.Function {
@@ -720,6 +721,8 @@ func checkC10(p *Program, r *Report) {
 	c09LastFrame(p, r)
 	c10PendingCapacity(p, r)
 	c09IncomingRelease(p, r)
+	c10ReaderNeverBlocks(p, r)
+	c10DuplicateRefused(p, r)
 	// under v5 several responses can share one self-contained segment: each must be delivered
 	segmentDrainFor(p, r, "segment-drain", "CqlClientConnection")
 }
@@ -1046,5 +1049,71 @@ func c10PendingCapacity(p *Program, r *Report) {
 		r.Fail("pending-capacity", "inFlightRequest.incoming", ctor.Pos(), "%s: the frames of a multi-page response that arrive before the previous page is read overflow the buffer and the request fails", bad)
 	} else {
 		r.OKf("pending-capacity", "inFlightRequest.incoming", ctor.Pos(), "every request's buffer has the configured capacity (%d construction sites)", n)
+	}
+}
+
+// c10ReaderNeverBlocks: the connection's reader goroutine delivers every frame; an operation on it
+// that can block indefinitely stalls all later responses. Events are *offered* to the event
+// channel: the select that sends on `events` must have a default (a full channel drops the event).
+func c10ReaderNeverBlocks(p *Program, r *Report) {
+	n := 0
+	for _, fn := range clientFuncs(p) {
+		for _, b := range fn.Blocks {
+			for _, ins := range b.Instrs {
+				switch x := ins.(type) {
+				case *ssa.Select:
+					for _, st := range x.States {
+						if f, _ := fieldOfLoad(st.Chan); f != nil && f.Name() == "events" && st.Dir == types.SendOnly {
+							n++
+							key := fmt.Sprintf("%s events select#%d", fnKey(fn), n)
+							if x.Blocking {
+								r.Fail("reader-never-blocks", key, x.Pos(), "the send on the event channel is in a select without default: once the channel is full (nobody drains EventChannel()) the reader goroutine blocks and no later response is delivered to its request")
+							} else {
+								r.OKf("reader-never-blocks", key, x.Pos(), "events are offered without blocking")
+							}
+						}
+					}
+				case *ssa.Send:
+					if f, _ := fieldOfLoad(x.Chan); f != nil && f.Name() == "events" {
+						n++
+						r.Fail("reader-never-blocks", fmt.Sprintf("%s events send#%d", fnKey(fn), n), x.Pos(), "plain send on the event channel blocks the reader goroutine when the channel is full")
+					}
+				}
+			}
+		}
+	}
+	if n == 0 {
+		r.Fail("reader-never-blocks", "events", token.NoPos, "no send on the event channel found in package client")
+	}
+}
+
+// c10DuplicateRefused: registering a request under a stream id that is present in the in-flight
+// map is refused whatever the state of the request registered there: on every path of addInFlight
+// on which the lookup found an entry the function returns an error. (An entry whose request has
+// failed still waits for the server's response; replacing it hands that late response to the new
+// request.)
+func c10DuplicateRefused(p *Program, r *Report) {
+	_, outs := clientRun(p, "inFlightRequestsHandler", "addInFlight", "inFlightRequestsHandler.isClosed", "newInFlightRequest", "inFlightRequest.IsDone")
+	n := 0
+	for _, o := range outs {
+		found := false
+		for a, pol := range o.St.atoms {
+			if strings.HasPrefix(a, "has(recv.inFlight[") && pol {
+				found = true
+			}
+		}
+		if !found {
+			continue
+		}
+		n++
+		key := fmt.Sprintf("addInFlight {%s}", strings.Join(o.St.atomLog, " "))
+		if o.IsErr == 1 {
+			r.OKf("duplicate-refused", key, token.NoPos, "an id that is still registered is refused")
+		} else {
+			r.Fail("duplicate-refused", key, token.NoPos, "addInFlight accepts a request although its stream id is still registered (conditions {%s}): the entry of a request whose response is still owed is replaced, and that late response is delivered to the new request", describeAtoms(o.St))
+		}
+	}
+	if n == 0 {
+		r.Fail("duplicate-refused", "addInFlight", token.NoPos, "no path of addInFlight looks the stream id up in the in-flight map")
 	}
 }
